@@ -112,7 +112,7 @@ def main():
     chunks = [progs[i::nw] for i in range(nw)]
     from concurrent.futures import ThreadPoolExecutor
     with ThreadPoolExecutor(nw) as ex:
-        outs = list(ex.map(lambda ch: vf.impl("impl_prog.py", {"programs": ch}), chunks))
+        outs = list(ex.map(lambda kc: vf.impl("impl_prog.py", {"programs": kc[1]}, bg=(kc[0] % 3 == 1)), list(enumerate(chunks))))   # every third worker: with parked threads
     impl = [None] * len(progs)
     for w, o in enumerate(outs):
         for j, r in enumerate(o):
